@@ -551,12 +551,61 @@ func globalStoreRule(r *Run, rule string) {
 		return
 	}
 	info := w.Pkgs[""].TypesInfo
+	isEvalLit := func(n ast.Node) bool {
+		cl, ok := n.(*ast.CompositeLit)
+		if !ok {
+			return false
+		}
+		nt, ok := info.Types[cl].Type.(*types.Named)
+		return ok && nt.Obj() == ct.Obj()
+	}
+	// constructors: functions every return of which yields a fresh evaluator literal (or another constructor's result)
+	ctors := map[*types.Func]bool{}
+	for changed := true; changed; {
+		changed = false
+		for _, f := range w.Funcs("") {
+			if ctors[f.Obj] || f.Obj == exec.Obj {
+				continue
+			}
+			sig := f.Obj.Type().(*types.Signature)
+			if sig.Results().Len() != 1 {
+				continue
+			}
+			if nt, ok := deref(sig.Results().At(0).Type()).(*types.Named); !ok || nt.Obj() != ct.Obj() {
+				continue
+			}
+			rets := returnsIn(f.Decl.Body)
+			all := len(rets) > 0
+			for _, ret := range rets {
+				if len(ret.Results) != 1 {
+					all = false
+					continue
+				}
+				e := unparen(ret.Results[0])
+				if u, ok := e.(*ast.UnaryExpr); ok && u.Op == token.AND {
+					e = unparen(u.X)
+				}
+				if isEvalLit(e) {
+					continue
+				}
+				if c, ok := e.(*ast.CallExpr); ok && ctors[calleeOf(info, c)] {
+					continue
+				}
+				all = false
+			}
+			if all {
+				ctors[f.Obj] = true
+				changed = true
+			}
+		}
+	}
 	nlit := 0
 	inspectBody(exec.Decl.Body, false, func(n ast.Node) bool {
-		if cl, ok := n.(*ast.CompositeLit); ok {
-			if nt, ok := info.Types[cl].Type.(*types.Named); ok && nt.Obj() == ct.Obj() {
-				nlit++
-			}
+		if isEvalLit(n) {
+			nlit++
+		}
+		if c, ok := n.(*ast.CallExpr); ok && ctors[calleeOf(info, c)] {
+			nlit++
 		}
 		return true
 	})
@@ -567,11 +616,17 @@ func globalStoreRule(r *Run, rule string) {
 			continue
 		}
 		inspectBody(f.Decl.Body, false, func(n ast.Node) bool {
-			if cl, ok := n.(*ast.CompositeLit); ok {
-				if nt, ok := info.Types[cl].Type.(*types.Named); ok && nt.Obj() == ct.Obj() {
-					other++
-					r.Bad(rule, f.Name(), "evaluator constructed outside Exec", w.Pos(cl.Pos()), "the evaluator must be created per execution by Template.Exec only")
+			if isEvalLit(n) {
+				if ctors[f.Obj] {
+					r.Ok(rule, f.Name(), "evaluator constructor", w.Pos(n.Pos()), "returns a fresh evaluator; its call sites are checked")
+					return true
 				}
+				other++
+				r.Bad(rule, f.Name(), "evaluator constructed outside Exec", w.Pos(n.Pos()), "the evaluator must be created per execution by Template.Exec only")
+			}
+			if c, ok := n.(*ast.CallExpr); ok && ctors[calleeOf(info, c)] && !ctors[f.Obj] {
+				other++
+				r.Bad(rule, f.Name(), "evaluator constructed outside Exec", w.Pos(n.Pos()), "the evaluator must be created per execution by Template.Exec only")
 			}
 			return true
 		})
